@@ -43,10 +43,8 @@ M('arnoldi-expand-basis-uncounted', 'C05', 'op-application-counted',
 M('herm-init-keeps-opcount', 'C05', 'counter-identity',
   [('HermEigsBase.h', '''        m_nmatop = 0;
         m_niter = 0;
-
-        // Initialize the Lanczos''', '''        m_niter = 0;
-
-        // Initialize the Lanczos''')],
+''', '''        m_niter = 0;
+''')],
   'operation count accumulates across init() calls')
 M('gen-eigenvectors-no-clamp', 'C05', 'accessor-agreement',
   [('GenEigsBase.h', '''        nvec = (std::max)(Index(0), (std::min)(nvec, nconv));
@@ -83,10 +81,8 @@ M('herm-restart-twice', 'C05', 'restarts-bounded-by-maxit',
 M('gen-init-keeps-niter', 'C06', 'init-rebuilds-what-compute-reads',
   [('GenEigsBase.h', """        m_nmatop = 0;
         m_niter = 0;
-
-        // Initialize the Arnoldi""", """        m_nmatop = 0;
-
-        // Initialize the Arnoldi""")], 'num_iterations() accumulates over runs')
+""", """        m_nmatop = 0;
+""")], 'num_iterations() accumulates over runs')
 M('arnoldi-init-keeps-H', 'C06', 'init-rebuilds-what-compute-reads',
   [('LinAlg/Arnoldi.h', """        m_fac_f.resize(m_n);
         m_fac_H.setZero();""", """        m_fac_f.resize(m_n);""")], 'stale H entries of an earlier run survive init() (same size => resize keeps the data)')
@@ -1263,3 +1259,10 @@ N('cayley-backtransform-shift-plus-correction', 'C03,C04',
 N('buckling-backtransform-divide-first', 'C03,C04',
   [('SymGEigsShiftSolver.h', "m_ritz_val.head(m_nev).array() = m_sigma * m_ritz_val.head(m_nev).array() /\n            (m_ritz_val.head(m_nev).array() - Scalar(1));",
     "m_ritz_val.head(m_nev).array() = m_sigma * (m_ritz_val.head(m_nev).array() /\n            (m_ritz_val.head(m_nev).array() - Scalar(1)));")], 'sigma * (nu / (nu - 1)): same conditioning')
+# ----------------------------------------------------------------------------- F50 / seed C05m (session 4)
+M('herm-init-keeps-status', 'C05', 'init-restores-the-initial-accessor-state',
+  [('HermEigsBase.h', "        m_niter = 0;\n        m_info = CompInfo::NotComputed;\n", "        m_niter = 0;\n")], 'reverts fix F50: info() after re-init() reports the earlier outcome')
+M('gen-init-keeps-flags', 'C05', 'init-restores-the-initial-accessor-state',
+  [('GenEigsBase.h', "        m_ritz_conv.setZero();\n", "")], 'flags of the earlier compute() survive init(): accessors return nev zeros')
+M('herm-init-status-successful', 'C05', 'flag-writers',
+  [('HermEigsBase.h', "        m_niter = 0;\n        m_info = CompInfo::NotComputed;\n", "        m_niter = 0;\n        m_info = CompInfo::Successful;\n")], 'init may only reset the status')
